@@ -44,7 +44,7 @@ func init() {
 		MinEvals:        floor(20000, 300000),
 		MinDistinct:     floor(150, 400),
 		RequiredCells: func(string) []string {
-			cells := []string{"pristine/phaseA", "pristine/phaseB", "phaseA", "phaseB", "phaseB/race-build", "overlap/same-token", "token/constructed", "token/decoded", "k=0", "k=1", "k=2", "k=5", "k=50", "k=300", "G=2", "G=4", "G=16", "G=64"}
+			cells := []string{"pristine/phaseA", "pristine/phaseB", "phaseB/sibling-burst", "phaseA", "phaseB", "phaseB/race-build", "overlap/same-token", "token/constructed", "token/decoded", "k=0", "k=1", "k=2", "k=5", "k=50", "k=300", "G=2", "G=4", "G=16", "G=64"}
 			for _, o := range c20OpNames() {
 				cells = append(cells, "op/"+o)
 			}
@@ -71,6 +71,9 @@ type c20Shared struct {
 	sealed   []byte
 	invCid   cid.Cid
 	dlgSeal  [][]byte
+	// sibs: further invocations over the SAME proofs (the same delegation objects behind the same
+	// loader) with other argument values - one the policies still accept, one they refuse
+	sibs []*invocation.Token
 	// baseline (private copy)
 	base *c20Shared
 }
@@ -176,6 +179,8 @@ func c20Build(w *mon.W, k int, decoded bool) *c20Shared {
 			ref.Stmt{Kind: "all", Sel: ref.Sel{{Kind: ref.SField, Name: "zitems"}, {Kind: ref.SSlice, Lo: open1}}, Subs: []ref.Stmt{{Kind: ">", Sel: ref.Sel{}, Val: ref.Int(0)}}},
 			ref.Stmt{Kind: "any", Sel: ref.Sel{{Kind: ref.SField, Name: "zitems"}, {Kind: ref.SSlice, Lo: neg2}}, Subs: []ref.Stmt{{Kind: ">=", Sel: ref.Sel{}, Val: ref.Int(1)}}},
 			ref.Stmt{Kind: "like", Sel: ref.Sel{{Kind: ref.SField, Name: "ztext"}, {Kind: ref.SSlice, Hi: ref.I64(-3)}}, Pat: "h*"},
+			// a pattern that makes the matcher work (and backtrack) on long values
+			ref.Stmt{Kind: "like", Sel: ref.Sel{{Kind: ref.SField, Name: "ztext"}}, Pat: "h*l*l*l*l*d*"},
 		)
 	}
 	b, err := sc.Build(r)
@@ -198,6 +203,10 @@ func c20Build(w *mon.W, k int, decoded bool) *c20Shared {
 	}
 	if k > 0 {
 		opts = append(opts, invocation.WithEncryptedMetaString("secret", "s3cr3t", bytes.Repeat([]byte{7}, 32)))
+		// values long enough for a printer to abbreviate
+		opts = append(opts, invocation.WithMeta("blob", bytes.Repeat([]byte{0xab, 0xcd, 0xef, 0x01}, 40)),
+			invocation.WithMeta("text", strings.Repeat("long metadata text ", 12)),
+			invocation.WithEncryptedMetaString("secret-long", strings.Repeat("a longer secret, ", 8), bytes.Repeat([]byte{7}, 32)))
 	}
 	inv, err := invocation.New(sc.Invoker.DID, sc.Subject.DID, b.Inv.Command(), b.Cids, opts...)
 	if err != nil {
@@ -210,6 +219,27 @@ func c20Build(w *mon.W, k int, decoded bool) *c20Shared {
 		return nil
 	}
 	s := &c20Shared{k: k, decoded: decoded, inv: inv, dlgs: b.Dlgs, loader: b.Loader, priv: sc.Invoker, sealed: sealed, invCid: c, dlgSeal: b.Sealed}
+	// sibling invocations over the same proofs: a long text that the like statements accept after
+	// some work, and one they refuse after more work
+	for si, txt := range []string{"h" + strings.Repeat("l", 20000) + "d, " + fmt.Sprint(k), "h" + strings.Repeat("l", 20000) + fmt.Sprint(k)} {
+		sa := args.New()
+		for _, e := range argsV.M {
+			v := e.V
+			if e.K == "ztext" {
+				v = ref.Str(txt)
+			}
+			if err := sa.Add(e.K, v.Node()); err != nil {
+				w.Inconclusive("C20 sibling args: " + err.Error())
+				return nil
+			}
+		}
+		sib, err := invocation.New(sc.Invoker.DID, sc.Subject.DID, b.Inv.Command(), b.Cids, invocation.WithArguments(sa), invocation.WithMeta("sibling", int64(si)))
+		if err != nil {
+			w.Inconclusive("C20 sibling invocation: " + err.Error())
+			return nil
+		}
+		s.sibs = append(s.sibs, sib)
+	}
 	for _, l := range sc.Links {
 		s.dlgPrivs = append(s.dlgPrivs, l.Iss)
 	}
@@ -322,6 +352,8 @@ func c20Ops() []c20Op {
 		{"ExecutionAllowedWithArgsHook", func(s *c20Shared) string {
 			return errS(s.inv.ExecutionAllowedWithArgsHook(s.loader, func(a args.ReadOnly) (*args.Args, error) { return a.WriteableClone(), nil }))
 		}},
+		{"ExecutionAllowed(sibling invocation, accepted)", func(s *c20Shared) string { return errS(s.sibs[0].ExecutionAllowed(s.loader)) }},
+		{"ExecutionAllowed(sibling invocation, refused)", func(s *c20Shared) string { return errS(s.sibs[1].ExecutionAllowed(s.loader)) }},
 		{"ToSealed", func(s *c20Shared) string { b, _, err := s.inv.ToSealed(s.priv.Priv); return decodedFields(b, err) }},
 		{"ToSealedWriter", func(s *c20Shared) string {
 			var buf bytes.Buffer
@@ -617,6 +649,43 @@ func runC20(w *mon.W) {
 			}
 			close(start)
 			wg.Wait()
+			// a burst on the sibling invocations alone: two questions with different answers put to
+			// the same statements of the same delegation objects at the same time
+			if G == 16 {
+				siOps := []int{}
+				for oi, o := range ops {
+					if strings.HasPrefix(o.name, "ExecutionAllowed(sibling") {
+						siOps = append(siOps, oi)
+					}
+				}
+				var bw sync.WaitGroup
+				bmism := make([]string, 8)
+				for g := 0; g < 8; g++ {
+					bw.Add(1)
+					go func(g int) {
+						defer bw.Done()
+						for i := 0; i < w.Pick(12, 40); i++ {
+							ti := (g / 4) % len(toks)
+							oi := siOps[(g+i)%len(siOps)]
+							var res string
+							if pi := mon.Guard(func() { res = ops[oi].run(toks[ti]) }); pi != nil {
+								res = "panic:" + pi.Value
+							}
+							if res != baseline[ti][oi] && bmism[g] == "" {
+								bmism[g] = fmt.Sprintf("%s on token k=%d: concurrent result %s, alone %s", ops[oi].name, toks[ti].k, mon.Trunc(res, 300), mon.Trunc(baseline[ti][oi], 300))
+							}
+						}
+					}(g)
+				}
+				bw.Wait()
+				w.Cover("phaseB/sibling-burst")
+				for _, m := range bmism {
+					if m != "" {
+						w.Violate("phaseB/result-differs/sibling-burst", "two invocations with different arguments checked at the same time over the same delegation objects: "+m, map[string]any{"detail": m, "race_build": w.Race})
+						break
+					}
+				}
+			}
 			w.Cover(fmt.Sprintf("G=%d", G))
 			w.Cover("phaseB")
 			for g := 0; g < G; g++ {
